@@ -905,11 +905,17 @@ class Skip(Exception):
     pass
 
 
-# MUST_CATCH (planted in scratch copies by tools/selftest.py --prop C10, see selftest/breaks_c10.py):
-#   c10-skip-fingerprint            servermap._try_to_set_pubkey accepts any verification key        -> forged k2-key version delivered
-#   c10-skip-signature              servermap._got_signature_one_share does not verify the signature  -> forged / IV-edited version delivered
-#   c10-mdmf-salt-not-hashed        retrieve._validate_block hashes the block without the MDMF salt   -> (reader only) every MDMF read fails; with the
-#                                   matching publish.py edit (manual two-file break) salt edits deliver garbage
-#   c10-sharehash-without-leaf      retrieve._validate_block: share hash chain accepted without leaf  -> re-hashed block delivered
-#   c10-block-leaf-not-checked      retrieve._validate_block does not set the block-hash leaf         -> edited block delivered
-#   c10-bad-share-aborts-read       retrieve._handle_bad_share re-raises                              -> read fails with k intact shares
+# MUST_CATCH (selftest/breaks_c10.py; each produces violation keys that the unchanged tree never shows):
+#   c10-skip-fingerprint                    _try_to_set_pubkey accepts any verification key       caught  delivered-unpublished-bytes/forged, /crossfile, /resign
+#   c10-skip-signature                      _got_signature_one_share skips verify_signature       caught  delivered-unpublished-bytes/forged, sdmf-iv-.../cached-reader
+#   c10-mdmf-salt-not-hashed-reader         _validate_block hashes the block without the salt     caught  (reader-only edit: every MDMF read fails, k-intact-.../version-read etc.)
+#   (manual two-file variant: publish.py too) salt edits then deliver garbage                     caught  delivered-unpublished-bytes/salt-iv
+#   c10-sharehash-without-leaf              share hash chain accepted without the leaf            caught  delivered-unpublished-bytes/rehash-block
+#   c10-block-leaf-not-checked              block-hash leaf never set                             caught  delivered-unpublished-bytes/block, /salt-iv
+#   c10-bad-share-aborts-read               _handle_bad_share re-raises BadShareError             caught  read-aborted-by-CorruptShareError-despite-k-intact-shares
+#   c10-unknown-pubkey-trusted-after-first  signature only checked for the first version seen     caught  delivered-unpublished-bytes/forged, /crossfile
+# Violations of the unchanged tree (analysed as genuine, see the report to the lead):
+#   sdmf-iv-not-checked-against-signed-prefix-at-retrieve/uncached-reader, k-intact-shares-on-servers-without-bad-shares-not-used/readonly-node,
+#   intact-shares-discarded-with-a-bad-share-on-the-same-server, connection-lost-on-another-server-aborts-the-read,
+#   share-with-edited-unsigned-offset-table-outranks-intact-shares, read-never-completes/bad-copy-of-a-duplicated-share-number-retried-forever,
+#   servermap-update-finishes-at-once-when-a-query-fails-synchronously
